@@ -112,10 +112,23 @@ class SeparateIterator:
         await self._gen.aclose()
 
 
+class Family:
+    """A schema + document templates + the resolver positions that may be awaitable."""
+
+    def __init__(self, sdl, docs, asyncable, types, list_fields):
+        self.sdl = sdl
+        self.docs = docs
+        self.parsed = [parse(d) for d in docs]
+        self.asyncable = asyncable
+        self.types = types
+        self.list_fields = list_fields
+
+
 class World:
     """Resolvers for one run: sync or awaitable per position, optional async-generator lists."""
 
-    def __init__(self, sched, bits, list_kind):
+    def __init__(self, sched, bits, list_kind, family=None):
+        self.family = family
         self.sched = sched
         self.bits = bits
         self.list_kind = list_kind  # 0 plain list, 1 async generator, 2 list of awaitables
@@ -134,14 +147,17 @@ class World:
 
     def install(self, schema):
         w = self
-        for tname in ("Hero", "Query"):
+        fam = self.family
+        asyncable = fam.asyncable if fam else ASYNCABLE
+        list_fields = fam.list_fields if fam else ("friends", "heroes", "strictFriends")
+        for tname in (fam.types if fam else ("Hero", "Query")):
             t = schema.get_type(tname)
             for fname, fdef in t.fields.items():
                 def resolve(src, _info, tname=tname, fname=fname):
                     v = (src or {}).get(fname)
                     key = tname + "." + fname
-                    is_async = w.sched is not None and key in ASYNCABLE and w.bits[ASYNCABLE.index(key)]
-                    if isinstance(v, list) and w.sched is not None and w.list_kind in (1, 3) and fname in ("friends", "heroes", "strictFriends"):
+                    is_async = w.sched is not None and key in asyncable and w.bits[asyncable.index(key)]
+                    if isinstance(v, list) and w.sched is not None and w.list_kind in (1, 3) and fname in list_fields:
                         async def gen(items=v):
                             w.gens_started += 1
                             try:
@@ -155,7 +171,7 @@ class World:
                         if w.list_kind == 3:
                             return SeparateIterable(gen())  # an AsyncIterable that is not its own iterator
                         return gen()
-                    if isinstance(v, list) and w.sched is not None and w.list_kind == 2 and fname in ("friends", "heroes", "strictFriends"):
+                    if isinstance(v, list) and w.sched is not None and w.list_kind == 2 and fname in list_fields:
                         out = []
                         for it in v:
                             w.n += 1
@@ -202,13 +218,13 @@ class Delivery:
         self.leftover = 0  # resolver coroutines still in flight when the response was complete
 
 
-def run_incremental(doc_i, root, flags, bits, list_kind, early, lazy, choices, stop_after=None, abort_at=None, abort_reason=None, source_fail_at=None, never=()):
+def run_incremental(doc_i, root, flags, bits, list_kind, early, lazy, choices, stop_after=None, abort_at=None, abort_reason=None, source_fail_at=None, never=(), family=None, unwind=False):
     """flags: the `if` value of each directive.  Returns (Delivery, loop, sched, world).
     stop_after: aclose() the payload stream after that many subsequent payloads;
     abort_at: trigger the abort signal just before the abort_at-th settlement."""
     from graphql.pyutils import AbortController
 
-    schema = build_schema(SDL)
+    schema = build_schema(family.sdl if family else SDL)
     loop = DetLoop()
     sched = Scheduler(loop, choices)
     abort = None
@@ -220,7 +236,7 @@ def run_incremental(doc_i, root, flags, bits, list_kind, early, lazy, choices, s
             if s.settled == abort_at and not abort.aborted:
                 controller.abort(abort_reason)
         sched.before_settle = maybe_abort
-    world = World(sched, bits, list_kind)
+    world = World(sched, bits, list_kind, family)
     world.source_fail_at = source_fail_at
     world.never = never
     world.install(schema)
@@ -237,10 +253,18 @@ def run_incremental(doc_i, root, flags, bits, list_kind, early, lazy, choices, s
     with loop:
         try:
             res, exc = sched.drive(experimental_execute_incrementally(
-                schema, PARSED[doc_i], root, variable_values=variables, enable_early_execution=early,
+                schema, (family.parsed if family else PARSED)[doc_i], root, variable_values=variables, enable_early_execution=early,
                 hooks=ExecutionHooks(async_work_finished=hook), abort_signal=abort))
             if exc is not None:
                 d.error = exc
+                d.unwound = None
+                if unwind and hasattr(exc, "aborted_result"):
+                    # the documented way to let an aborted execution finish unwinding
+                    ures, uexc = sched.drive(exc.aborted_result)
+                    d.unwound = "rejected" if uexc is not None else ("incremental" if hasattr(ures, "initial_result") else "result")
+                    loop.run_until_idle()
+                    d.leftover = len(world.inflight)
+                    sched.drain()
                 return d, loop, sched, world
             if isinstance(res, ExecutionResult):
                 d.single = res
